@@ -172,6 +172,14 @@ def run(pid, tier):
             rep.violation('driver-failure', dict(build=cfg, rc=d['rc'], stderr=d['stderr'].decode(errors='replace')[-2000:]))
             continue
         files.append((out, cfg, 'gen-' + cfg))
+    # a C89 target (no stdbool, no isfinite / snprintf detected by cc.h): the library's own formatter again
+    exe = lib.build('drv_gfmt', ['drv_gfmt.c'], config='c89dtostre')
+    out = '%s/dtostre89.ndjson' % w
+    d = lib.run_driver(exe, ['gen', lib.seed() + 1, nrand // 6, estride * 5, out], timeout=300)
+    if d['rc'] != 0:
+        rep.violation('driver-failure', dict(build='c89dtostre', rc=d['rc'], stderr=d['stderr'].decode(errors='replace')[-2000:]))
+    else:
+        files.append((out, 'dtostre', 'gen-dtostre-c89'))
     validate(rep, files)
     th.join()
     for c, r in mres.items():
